@@ -5,8 +5,9 @@ from __future__ import annotations
 import ast
 
 from ..core import rule
-from ..dataflow import DefUse
-from ..program import AnalysisError, dotted, src, walk_local
+from ..dataflow import DefUse, origins
+from ..program import AnalysisError, dotted, src
+from ..core import walk_local  # inline-aware
 from .common import unwrap_await, where
 
 WEB = "xandikos.web"
@@ -15,23 +16,17 @@ SBC = WEB + ".StoreBasedCollection"
 
 
 def _origin(du, n, e, depth=0):
-    """Describe where expression e (at node n) gets its value: list of (kind, text)."""
-    e = unwrap_await(e)
-    if isinstance(e, ast.Name) and depth < 5:
-        out = []
-        for d in du.reaching(n, e.id):
-            if d.kind == "param":
-                out.append(("param", d.name, d.index))
-            elif d.value is not None and d.node is not None and d.kind in ("assign", "for"):
-                v = unwrap_await(d.value)
-                if isinstance(v, ast.Name):
-                    out.extend(_origin(du, d.node, v, depth + 1))
-                else:
-                    out.append(("expr", v, d.index))
-            else:
-                out.append((d.kind, None, d.index))
-        return out
-    return [("expr", e, ())]
+    """Where expression e (at node n) gets its value: [(kind, leaf expression | parameter name, index path)]
+    (generic value-origin walk: local names, constant subscripts, inlined helpers)."""
+    out = []
+    for o in origins(du, n, unwrap_await(e)):
+        if o.kind == "param":
+            out.append(("param", o.name, o.path))
+        elif o.kind in ("expr", "elem") and o.leaf is not None:
+            out.append(("expr", unwrap_await(o.leaf), o.path))
+        else:
+            out.append((o.kind, None, o.path))
+    return out
 
 
 def _is_call_to(v, names):
@@ -84,7 +79,8 @@ def e1(ctx):
                 ok, how = False, src(a)
                 if dotted(a) == "self.etag" and fi.cls is not None and fi.cls.qualname == OBJ:
                     ok, how = True, "ObjectResource.etag"
-                elif isinstance(a, ast.Call) and dotted(a.func) == "self.store.get_ctag":
+                elif (lambda og: bool(og) and all(k == "expr" and isinstance(v, ast.Call) and dotted(v.func) == "self.store.get_ctag" and not idx
+                                                  for k, v, idx in og))(_origin(du, n, a)):
                     ok, how = True, "store.get_ctag()"
                 else:
                     org = _origin(du, n, a)
